@@ -14,3 +14,15 @@
   (ite ((_ is raster.Rasterizer.CubeTo) e) (mk-RastSt (raster.Rasterizer.CubeTo.a4 e) (raster.Rasterizer.CubeTo.a5 e) (rast.startX s) (rast.startY s))
   (ite ((_ is raster.Rasterizer.ClosePath) e) (mk-RastSt (rast.startX s) (rast.startY s) (rast.startX s) (rast.startY s))
   s)))))))
+; "tr is base with exactly k CubeTo calls delivered after it" (k = 0..4), spelled out
+(define-fun rast.isCube ((t Tr.raster.Rasterizer)) Bool (and ((_ is cons.raster.Rasterizer) t) ((_ is raster.Rasterizer.CubeTo) (hd.raster.Rasterizer t))))
+(define-fun rast.cubes ((t Tr.raster.Rasterizer) (base Tr.raster.Rasterizer) (k Int)) Bool
+  (ite (= k 0) (= t base)
+  (ite (= k 1) (and (rast.isCube t) (= (tl.raster.Rasterizer t) base))
+  (ite (= k 2) (and (rast.isCube t) (rast.isCube (tl.raster.Rasterizer t)) (= (tl.raster.Rasterizer (tl.raster.Rasterizer t)) base))
+  (ite (= k 3) (and (rast.isCube t) (rast.isCube (tl.raster.Rasterizer t)) (rast.isCube (tl.raster.Rasterizer (tl.raster.Rasterizer t)))
+                    (= (tl.raster.Rasterizer (tl.raster.Rasterizer (tl.raster.Rasterizer t))) base))
+  (ite (= k 4) (and (rast.isCube t) (rast.isCube (tl.raster.Rasterizer t)) (rast.isCube (tl.raster.Rasterizer (tl.raster.Rasterizer t)))
+                    (rast.isCube (tl.raster.Rasterizer (tl.raster.Rasterizer (tl.raster.Rasterizer t))))
+                    (= (tl.raster.Rasterizer (tl.raster.Rasterizer (tl.raster.Rasterizer (tl.raster.Rasterizer t)))) base))
+  false))))))
